@@ -375,3 +375,6 @@ func (r *Run) MergeLocal(l *Local) {
 	}
 	l.m = map[string]*Viol{}
 }
+
+// IsKnown reports whether key is listed as a known (unrepaired) finding.
+func (r *Run) IsKnown(key string) bool { return matchKnown(r.known, key) != nil }
